@@ -664,17 +664,29 @@ pub mod direct {
                 None => None,
             }
         }
+        // pop_first / pop_last take the element inside a loop over the CONCRETE slot index (a take() at a symbolic index is a
+        // byte-level move at a symbolic offset for CBMC, which is far more expensive)
         pub fn pop_first(&mut self) -> Option<(K, V)> {
-            match self.first_idx_from(0) {
-                Some(i) => self.slots[i].take(),
-                None => None,
+            let mut out = None;
+            let mut i = 0;
+            while i < DCAP {
+                if out.is_none() && self.slots[i].is_some() {
+                    out = self.slots[i].take();
+                }
+                i += 1;
             }
+            out
         }
         pub fn pop_last(&mut self) -> Option<(K, V)> {
-            match self.last_idx() {
-                Some(i) => self.slots[i].take(),
-                None => None,
+            let mut out = None;
+            let mut i = DCAP;
+            while i > 0 {
+                i -= 1;
+                if out.is_none() && self.slots[i].is_some() {
+                    out = self.slots[i].take();
+                }
             }
+            out
         }
         pub fn first_key_value(&self) -> Option<(&K, &V)> {
             self.first_idx_from(0).map(|i| { let (k, v) = self.slots[i].as_ref().unwrap(); (k, v) })
